@@ -704,6 +704,7 @@ class Engine:
         if self.ctx.model_close:
             stc = st.fork()
             e = self.new_exc(stc, 'GeneratorExit')
+            stc.ghost['consumer_closed'] = e       # ghost: THIS GeneratorExit is the consumer's close(), not an exception of user code
             outs.append(Outcome('raise', stc, exc=e))
         return outs
 
@@ -1098,6 +1099,19 @@ class Engine:
                 return [(st, BoundV(recv, attr))]
             ca = self.class_attr_lookup(recv.cls, attr)
             if ca is not None:
+                if self.instance_state(recv.cls, attr):
+                    # a class-level default of an attribute that methods assign on the instance (`_n = 0` ... `self._n += 1`):
+                    # per-instance state the contract's fields() does not describe.  The default is only its INITIAL value;
+                    # a method contract holds for every reachable instance, so the value is arbitrary (of the default's type)
+                    if isinstance(ca, ast.Constant) and type(ca.value) is int:
+                        v = IntV(smt.fresh('inst_' + attr, smt.Int))
+                    elif isinstance(ca, ast.Constant) and type(ca.value) is bool:
+                        v = BoolV(smt.fresh('inst_' + attr, smt.Bool))
+                    else:
+                        raise Unsupported('instance state %s.%s (class default, assigned by methods) is not described by the contract'
+                                          % (recv.cls, attr))
+                    fields[attr] = v
+                    return [(st, v)]
                 return self.eval(ca, st)
             if attr == '__class__':
                 return [(st, ClassV(recv.cls))]
@@ -1138,6 +1152,20 @@ class Engine:
         if h3 is not None:
             return h3
         raise Unsupported('attribute %s of %r' % (attr, recv))
+
+    def instance_state(self, cls, attr):
+        seen = set()
+        c = cls
+        while c and c not in seen:
+            seen.add(c)
+            key = '%s:%s' % (self.mod, c)
+            if key not in self.src.classes:
+                return False
+            if attr in self.src.assigned_self_attrs(key):
+                return True
+            b = self.src.class_bases(key)
+            c = b[0] if b else None
+        return False
 
     def class_attr_lookup(self, cls, attr):
         seen = set()
